@@ -499,4 +499,21 @@ def validate_import : ImportArgs → Except Reject Unit
   | .unknown => .error .reject
   | .missing => .error .reject
 
+/-! ### explicit copies of three guards as they were at the pinned commit (for the record) -/
+
+namespace Pinned
+
+/-- pinned `tt_dimscheck` after forming the array: only the sign test -/
+def dimsAccepted (dimArr : List Int) : Bool := !dimArr.any (· < 0)
+
+/-- pinned `sptenmat` index test: `prod(tshape[rdims]) >= max(subs[:, 0])` -/
+def rowIndexAccepted (nrows : Nat) (idx : Int) : Bool := decide ((nrows : Int) ≥ idx)
+
+/-- pinned dense `permute`: the length test, then `np.transpose`, which also takes axes counted
+from the end -/
+def permuteAccepted (N : Nat) (order : List Int) : Bool :=
+  order.length == N && isPermOfI (order.map fun k => if k < 0 then k + N else k) N
+
+end Pinned
+
 end Pyttb
